@@ -1,6 +1,6 @@
 """C01: async result = sequential result (values, shapes, conventions, flush orders)."""
 from vlib.spec import Cond, I, B
-from harness import core, fam, lemmas
+from harness import core, fam, lemmas, ctx
 
 P = {"c01"}
 T_QUICK = [0, 1, 2, 3, 4, 5, 6, 7, 8, 9, 10, 11, 12, 13, 15, 16, 17, 18]
@@ -26,6 +26,9 @@ def conds(tier):
     out.append(core.cancel_cond("cancel", P))
     out.append(core.dagsync_cond("dagsync", P))
     out.append(lemmas.struct_cond())
+    out.append(Cond("ctxsync", ctx.mk_ctx2(P | {"c07v"}, 2, (0, 5, 1), (1, 4), 2), ctx.ctx2_params(2, 3, 2, 2, ho=0), pin=3,
+                    budget=200, family="F-CTX x F-REENTRY: scoped overrides entered after synchronous calls, read by siblings",
+                    encodes=core.ENC_SCHED + ctx.ENC_CTX))
     if not q:
         out.append(Cond("tree4", core.mk_tree(P, 4, 3, 3), core.tree_params(4, 3, 3), pin=4, budget=900,
                         family="F-TREE(4,3,3)", encodes=core.ENC_SCHED))
